@@ -4,6 +4,7 @@ CONSTANTS MaxPages = 1
           MaxCalls = 1
           ShapeStops = FALSE
           Stream = FALSE
+          HaltInFetch = FALSE
 INVARIANTS Agree InOrderExactlyOnce
 POSTCONDITION TraceAccepted
 CHECK_DEADLOCK FALSE
